@@ -6,6 +6,7 @@
 #include <sys/stat.h>
 
 static std::string g_prop, g_faildir; static double g_K = 32;
+static long g_shrink_budget = -1;   // -1: no failure seen yet in this sub-property; otherwise executions left for shrinking
 
 static void write_file(const std::string &path, const std::string &text) { std::ofstream f(path); f << text; }
 static std::string slug(std::string s) { for (auto &c : s) if (!isalnum((unsigned char)c)) c = '_'; return s; }
@@ -17,6 +18,8 @@ static std::string judge(const Spec &s, const NumCase &c, const std::string &sub
   for (auto &o : out) {
     if (record) { st.count("evaluations"); st.count("evals:" + s.name);
       if (o.status == 3) st.count("skipped_near_switching_surface");
+      if (o.status != 3 && o.err < 1e299) { int b = o.err <= 0 ? -20 : (int)floor(log2(o.err)); if (b > 40) b = 40; if (b < -20) b = -20; st.count("errhist_log2:" + std::to_string(b)); st.maxi("max_err:" + s.name + "/" + o.label + (c.prec ? "/ld" : "/d"), o.err); }
+      if (o.errab >= 0) { st.maxi("max_errab:" + s.name + "/" + o.label + (c.prec ? "/ld" : "/d"), o.errab); int b = o.errab <= 0 ? -20 : (int)floor(log2(o.errab)); st.count("errabhist_log2:" + std::to_string(b)); }
       if (o.status == 0 || o.status == 2) { if (o.err < 1e299) st.maxi(std::string("max_err_eps_mag:") + (c.prec ? "ld" : "d"), o.status == 0 ? o.err : 0); }
       if (o.status == 2) { st.count("known_finding_cells:" + o.finding);
         std::string f = g_faildir + "/finding_" + slug(o.finding) + ".case";
@@ -60,7 +63,11 @@ int main(int argc, char **argv) {
       const size_t nent = 4 * npar + 64;
       rc::detail::TestParams tp; tp.seed = mix64(seed ^ mix64(std::hash<std::string>()(sub))); tp.maxSuccess = std::max(1, npar > 100 ? cases / 4 : cases); tp.maxSize = 100;
       rc::detail::TestMetadata md; md.id = g_prop + ":" + sub; md.description = md.id;
+      g_shrink_budget = -1;
       auto prop_fn = [&]() {
+        // bounded shrinking: after the first failure at most 400 further executions are evaluated; the rest pass
+        // immediately so that rapidcheck's shrinker terminates (the last failing case written is the replay file)
+        if (g_shrink_budget == 0) return; if (g_shrink_budget > 0) g_shrink_budget--;
         auto ent = *rc::gen::container<std::vector<uint64_t>>(nent, rc::gen::resize(rc::kNominalSize, rc::gen::arbitrary<uint64_t>()));
         int mode = 0;   // 0 = one third of the parameters log-scaled, 1 = dominance sweep on every parameter family, 2 = corner of the admissible box
         if (c09) { uint64_t sel = ent.empty() ? 0 : ent.back() % 10; mode = sel < 1 ? 2 : 1; }
@@ -72,7 +79,7 @@ int main(int argc, char **argv) {
         std::string bad = judge(s, c, sub, true);
         if (bad.empty() && c09 && prec == 0) { // common-input sub-stream: the same double inputs through the long double interface
           NumCase c2 = c; c2.prec = 1; st.count("class:common_input_pair"); bad = judge(s, c2, sub + "+common", true); }
-        if (!bad.empty()) RC_FAIL("violation at " + sub + " " + bad);
+        if (!bad.empty()) { if (g_shrink_budget < 0) g_shrink_budget = 400; RC_FAIL("violation at " + sub + " " + bad); }
       };
       auto result = rc::detail::checkTestable(prop_fn, md, tp);
       if (!result.template is<rc::detail::SuccessResult>()) { failures++;
